@@ -558,11 +558,44 @@ def c02_generated_sites(ctx):
     engine_projection(ctx, res, {"decisions", "where", "content"})
     cli_projection(ctx, res, {"decisions", "where", "content"}, len(res))
 
+def kinds_and_names_family(ctx, checks):
+    """Both kinds of metavariable in one change meeting the same kinds of code; a repeated metavariable whose captured code
+    contains an identifier spelled like a declared metavariable (it is code there, not a wildcard)."""
+    body = lambda lines: "package a\n\nfunc g() {\n" + "".join("\t" + l + "\n" for l in lines) + "}\n"
+    table = [
+        ("@@\nvar e expression\nvar f identifier\n@@\n-pair(e, f)\n+pair(f, e)\n",
+         ["pair(a.b, c.d)", "pair(a.b, c)", "pair(h(1), g(2))", "pair(x, y.z)", "pair(k, m)", "pair(a[0], b[1])", "pair(a[0], n)"]),
+        ("@@\nvar f identifier\nvar e expression\n@@\n-pair(f, e)\n+pair(e, f)\n",
+         ["pair(a.b, c.d)", "pair(c, a.b)", "pair(k, m)", "pair(g(2), h(1))", "pair(n, a[0])"]),
+        ("@@\nvar f identifier\nvar e expression\n@@\n-f.Write(e)\n+f.WriteAll(e)\n",
+         ["x.y.Write(1)", "w.Write(x.y)", "w.Write(q)", "(a.b).Write(3)", "h().Write(4)", "v.Write(h())"]),
+        ("@@\nvar x expression\n@@\n-max(x, x)\n+x\n",
+         ["b := max(p.x, p.y)", "c := max(p.x, p.x)", "d := max(x+1, x+2)", "e := max(f(x), f(y))", "k := max(x, x)", "m := max(x, y)", "n := max(x+1, x+1)"]),
+        ("@@\nvar v expression\n@@\n-same(v, v)\n+one(v)\n",
+         ["same(a.v, a.w)", "same(v.a, w.a)", "same(a.v, a.v)", "same(v[i], v[j])", "same(v, w)"]),
+        ("@@\nvar n identifier\nvar x expression\n@@\n-twice(x, x, n)\n+once(x, n)\n",
+         ["twice(n.a, n.b, k)", "twice(q.n, q.m, k)", "twice(a, a, k)", "twice(n, n, n)", "twice(f(n), f(m), k)", "twice(n.a, n.a, n)"]),
+        ("@@\nvar x, y expression\n@@\n-swap(x, y, x)\n+swap(y, x, y)\n",
+         ["swap(p.x, q, p.y)", "swap(p.x, q, p.x)", "swap(y, x, y)", "swap(a.y, x, a.x)"]),
+    ]
+    cases = []
+    for k, (patch, lines) in enumerate(table):
+        cases.append({"id": f"kinds{k}", "patches": [patch], "src": body(lines)})
+        for j in range(len(lines)):      # each line first in turn: what was met first must not decide for the rest
+            rot = lines[j:] + lines[:j]
+            cases.append({"id": f"kinds{k}r{j}", "patches": [patch], "src": body(rot)})
+        cases.append({"id": f"kinds{k}f", "patches": [patch], "src": "package a\n\n" + "".join(f"func g{j}() {{\n\t{l}\n}}\n\n" for j, l in enumerate(lines))})
+    res = run_engine_batch(ctx, ["-inputs", write_jsonl(ctx, cases)], "kinds")
+    ctx.count("kinds_and_names_cases", len(res))
+    engine_projection(ctx, res, checks)
+    cli_projection(ctx, res, checks, len(res) if ctx.tier != "quick" else 30)
+
 @prop("C02")
 def c02(ctx):
     engine_family(ctx, "c02", {"decisions", "where"})
     rule = ctx.rule
     c02_generated_sites(ctx)
+    kinds_and_names_family(ctx, {"decisions", "where", "content"})
     ctx.rule = rule + (" A directed family runs two changes of which the second binds its metavariables at several sites inside "
                        "code the first one generated (equal and different fillers, also of equal length; as two patch files and as one).")
 
@@ -640,6 +673,42 @@ def c03(ctx):
     ctx.rule += (" Plus a table of command lines that reach the same file more than once with a patch whose output is again an instance of "
                  "its '-' side: every site is rewritten exactly once.")
     c03_once(ctx)
+    ctx.rule += (" Plus a table in which a metavariable is bound by the name of an import only (context or '-' import line) and used in "
+                 "the '+' code: the generated code carries the name the file imports the package under; written by hand expectations.")
+    c03_import_name(ctx)
+
+def c03_import_name(ctx):
+    """a metavariable bound only as the name of an import and used in the '+' code: the name the file knows the package by"""
+    path = "example.com/log"
+    jobs = []
+    for sign in (" ", "-"):
+        for fname, fimp in (("l", f'l "{path}"'), ("log", f'log "{path}"'), ("xlog", f'xlog "{path}"')):
+            for layout in ("single", "grouped"):
+                for body, use in (("-print(x)\n+nm.Println(x)\n", "{n}.Println(1)"), ("-print(x)\n+nm.With(nm.Level, x)\n", "{n}.With({n}.Level, 1)"),
+                                  ("-nm.Info(x)\n+nm.Println(x)\n", None)):
+                    head = f'{sign}import nm "{path}"\n' + (f'+import nm "example.com/zap"\n' if sign == "-" else "") + "\n"
+                    patch = "@@\nvar nm identifier\nvar x expression\n@@\n" + head + body
+                    imp = f"import {fimp}\n\n" if layout == "single" else f'import (\n\t"fmt"\n\n\t{fimp}\n)\n\nvar _ = fmt.Sprint\n\n'
+                    call = "print(1)" if use else f"{fname}.Info(1)"
+                    src = f"package a\n\n{imp}func f() {{\n\t{call}\n\t{fname}.Keep()\n}}\n"
+                    want_call = (use or "{n}.Println(1)").replace("{n}", fname)
+                    jobs.append((patch, src, want_call, f"import line '{sign}', file imports it as {fname}, {layout}"))
+    def one(j):
+        patch, src, want_call, desc = j
+        root = ctx.scratch("c03imp")
+        cl.write_tree(root, {"a.go": src, "p.patch": patch})
+        code, out, err = cl.gopatch(ctx.gopatch, root, ["-p", "p.patch", "--print-only", "a.go"])
+        shutil.rmtree(root, ignore_errors=True)
+        return code, out.decode("utf-8", "replace"), err.decode("utf-8", "replace")
+    with ThreadPoolExecutor(max_workers=8) as ex:
+        outs = list(ex.map(one, jobs))
+    for (patch, src, want_call, desc), (code, out, err) in zip(jobs, outs):
+        ctx.evaluations += 1
+        ctx.count("import_name_metavariable_in_plus_code")
+        ctx.nontrivial.add("impname:" + patch + src)
+        if code != 0 or ("\t" + want_call + "\n") not in out:
+            ctx.violation(f"a metavariable bound by the name of an import and used in the '+' code ({desc}): the generated code must read "
+                          f"{want_call!r}", {"input": {"patches": [patch], "src": src}, "exit": code, "stdout": out[-800:], "stderr": err[-400:]})
 
 @prop("C04")
 def c04(ctx):
@@ -651,6 +720,11 @@ def c04(ctx):
 @prop("C05")
 def c05(ctx):
     engine_family(ctx, "c05", {"outside"})
+    rule = ctx.rule
+    # code that only resembles an instance (a repeated metavariable over code that differs, an identifier metavariable over
+    # a selector) is outside every rewritten fragment
+    kinds_and_names_family(ctx, {"outside", "decisions", "where"})
+    ctx.rule = rule + " Plus a directed table of near-instances (both kinds of metavariable in one change, repeated metavariables over code that contains their own name)."
 
 # ---------------------------------------------------------------------------
 # CLI stream (black-box runs of the built binary vs the Lean loop model)
@@ -785,15 +859,48 @@ def flags_of(opts):
     m = {"diff": "--diff", "print": "--print-only", "si": "--skip-import-processing", "sg": "--skip-generated", "v": "-v"}
     return [m[o] for o in opts]
 
+def model_generated(ctx, root, rels):
+    """which files count as generated: the Lean model checkGenerated on the comment structure go/parser finds (harness
+    command `comments`), not the binary's own word for it; None for a file the harness cannot read or parse"""
+    d = ctx.scratch("gen")
+    paths = []
+    for k, rel in enumerate(rels):
+        p = os.path.join(d, f"g{k}.go")
+        try:
+            shutil.copyfile(os.path.join(root, rel), p)
+        except OSError:
+            continue
+        paths.append(p)
+    out = {}
+    if paths:
+        r = subprocess.run([ctx.harness, "comments"], input="\n".join(paths) + "\n", stdout=subprocess.PIPE, stderr=subprocess.PIPE, text=True)
+        if r.returncode == 0:
+            m = subprocess.run([ctx.driver], input=r.stdout, stdout=subprocess.PIPE, stderr=subprocess.PIPE, text=True)
+            for l in m.stdout.splitlines():
+                sx = parse_sx(l)
+                if sx and sx[0] == "res" and sx[1].startswith("g"):
+                    out[rels[int(sx[1][1:])]] = (sx[2] == "1")
+    shutil.rmtree(d, ignore_errors=True)
+    return out
+
 def classify_all(ctx, root, pargs, rels, opts):
     """solo observations; --skip-import-processing changes bytes so it is part of the key"""
     base_flags = ["--skip-import-processing"] if "si" in opts else []
     infos = []
-    for rel in sorted(rels, key=lambda r: os.path.join(root, r)):
+    order = sorted(rels, key=lambda r: os.path.join(root, r))
+    gen = model_generated(ctx, root, order) if "sg" in opts else {}
+    for rel in order:
         info = cl.classify(ctx.gopatch, root, pargs, rel, base_flags)
         if "sg" in opts:
             g = cl.classify(ctx.gopatch, root, pargs, rel, base_flags + ["--skip-generated"])
             info["generated"] = g["generated"]
+            if info["parses"] and info["content"] is not None and rel in gen and gen[rel] != info["generated"]:
+                # the binary's word against the model's: the model decides what the run as a whole is expected to do
+                ctx.count("generated:binary_and_model_disagree")
+                info["generated"] = gen[rel]
+                if gen[rel]:
+                    info["apply"] = ("nomatch",)
+                    info["needs_unflagged"] = True
         infos.append(info)
     return infos
 
@@ -1322,6 +1429,42 @@ def c18(ctx):
     trip = cli_print_triples(ctx, libcases)
     ctx.count("library_on_generated_files", len(trip))
     api_vs_cli(ctx, trip, "C18 (without the flag the markers have no effect: the library API)")
+    # an unmarked file is processed exactly as without the flag: whatever the patch does (import edits decided from the
+    # resolved file, several changes, rewrites that are refused), the same bytes, the same diagnostics, the same exit status
+    neutral = [c for c in gen_cases(ctx, "c11", 80 if ctx.tier == "quick" else 2000, ctx.seed + 18, golden=False) if len(c.get("patches", [])) >= 1]
+    neutral += [c for c in gen_cases(ctx, "c09", 40 if ctx.tier == "quick" else 800, ctx.seed + 19, golden=False) if c.get("chain")]
+    neutral.append({"id": "shadow", "patches": ["@@\n@@\n-import \"net/url\"\n+import \"example.com/safeurl\"\n\n-url.Parse(...)\n+safeurl.Parse(...)\n"],
+                    "src": "package a\n\nimport \"net/url\"\n\nfunc f(s string) string {\n\turl, err := url.Parse(s)\n\tif err != nil {\n\t\treturn \"\"\n\t}\n\treturn url.Hostname()\n}\n"})
+    neutral.append({"id": "shadow-param", "patches": ["@@\n@@\n-import \"old/log\"\n+import \"new/zap\"\n\n-log.Print(...)\n+zap.Print(...)\n"],
+                    "src": "package a\n\nimport \"old/log\"\n\nfunc warn(log *Logger) {\n\tlog.Info(1)\n}\n\nfunc g() {\n\tlog.Print(2)\n}\n"})
+    neutral += [{"id": f"misfit{k}", "patches": [p_], "src": s_} for k, (p_, s_) in enumerate(MISFIT[:4])]
+    def flag_neutral(c):
+        root = ctx.scratch("c18n")
+        files = {"a.go": c["src"]}
+        pargs = []
+        for k, p_ in enumerate(c.get("chain") or c["patches"]):
+            files[f"p{k}.patch"] = p_
+            pargs += ["-p", f"p{k}.patch"]
+        cl.write_tree(root, files)
+        out = []
+        for mode in ([], ["--diff"], ["--print-only", "--skip-import-processing"]):
+            a = cl.gopatch(ctx.gopatch, root, pargs + ["--print-only"] + mode + ["a.go"])
+            b = cl.gopatch(ctx.gopatch, root, pargs + ["--print-only", "--skip-generated"] + mode + ["a.go"])
+            out.append((mode, a, b))
+        shutil.rmtree(root, ignore_errors=True)
+        return c, out
+    with ThreadPoolExecutor(max_workers=8) as ex:
+        for c, outs in ex.map(flag_neutral, neutral):
+            for mode, a, b in outs:
+                ctx.evaluations += 1
+                ctx.count("flag_neutral_on_unmarked_files")
+                if a[0] == 0 and a[1] != c["src"].encode():
+                    ctx.nontrivial.add("neutral:" + json.dumps(c["patches"]) + c["src"])
+                if a != b:
+                    ctx.violation("an unmarked file is processed differently with --skip-generated than without it (same patch, same file, "
+                                  f"flags {' '.join(['--print-only'] + mode)}): exit {a[0]} / {b[0]}, stdout equal: {a[1] == b[1]}, stderr equal: {a[2] == b[2]}",
+                                  {"input": {"patches": c.get("chain") or c["patches"], "src": c["src"]},
+                                   "without_flag": a[1].decode("utf-8", "replace")[-800:], "with_flag": b[1].decode("utf-8", "replace")[-800:]})
     optsets = [["sg"], ["sg", "print"], ["sg", "diff"], ["print"], [], ["sg", "v"], ["sg", "si"], ["sg", "si", "print"], ["sg", "si", "diff", "v"]]
     ctx.extra["exhaustive"] = True
     ctx.extra["header_shapes"] = [h[0] for h in headers]
@@ -1531,7 +1674,7 @@ def c07(ctx):
                                  {"a_large.go": big("alpha", n + rng.randint(0, 9)), "m.go": src, "z_large.go": big("zulu", n + rng.randint(0, 9))},
                                  "misfit among files with large results"))
     scen += corpus_scenarios("C07")
-    optsets = [[], ["si"], ["print"], ["print", "si"], ["diff"], ["diff", "si"]]
+    optsets = [[], ["si"], ["print"], ["print", "si"], ["diff"], ["diff", "si"], ["diff", "v"], ["print", "v", "si"], ["v"], ["diff", "print", "v"]]
     run_scenarios(ctx, scen, optsets, {"write", "stdout", "exit"}, post)
     # the temporary sibling cannot be created (250-byte name) and the result is shorter than the original: whatever ends
     # up on disk under exit status 0 must parse
@@ -1933,10 +2076,14 @@ def facts_tie(ctx):
 
 # --- argument forms (shared by C12 and C14) ----------------------------------
 ARGFORM_TREE = {"a.go": "f", "sub": {"b.go": "f", ".hid": {"f.go": "f"}}, "testdata": {"c.go": "f", "cases": {"g.go": "f"}},
-                "vendor": {"dep": {"d.go": "f"}}, "_gen": {"e.go": "f"}, "notes.txt": "f"}
+                "vendor": {"dep": {"d.go": "f"}}, "_gen": {"e.go": "f"}, "notes.txt": "f",
+                "api": ("l", "sub"), "alias.go": ("l", "a.go")}      # a link to a directory, a link to a file: entries of their own
 ARGFORM_ARGS = [[".", "$ROOT"], ["$ROOT", "."], ["./...", "testdata/c.go", "vendor/dep/d.go"], ["testdata/c.go", "./..."],
                 [".", "_gen/e.go", "sub/.hid/f.go"], ["$ROOT/sub", "sub/b.go", "./sub/..."], ["./...", "./testdata/cases/..."],
-                ["sub", "$ROOT/sub/b.go", "a.go", "./a.go"], ["$ROOT/...", "sub/..", "testdata/cases/g.go"], ["a.go", "a.go", "$ROOT/a.go"]]
+                ["sub", "$ROOT/sub/b.go", "a.go", "./a.go"], ["$ROOT/...", "sub/..", "testdata/cases/g.go"], ["a.go", "a.go", "$ROOT/a.go"],
+                # links as arguments next to arguments that reach what they point to
+                ["./...", "api"], ["api", "./..."], ["sub", "api"], ["api"], ["alias.go", "a.go"], ["$ROOT/api", "sub/b.go", "$ROOT/alias.go"],
+                ["api/...", "."]]
 
 def arg_forms_family(ctx, what):
     """One small tree, a patch that is not idempotent (a file processed twice shows), argument lists that name the
@@ -3070,6 +3217,17 @@ QUOTE_TABLE = [
      "package a\n\nfunc f(t string) {\n\tfoo(t)\n}\n"),
 ]
 
+SAME_SIDE_TABLE = [
+    ("@@\nvar x expression\n@@\n-a.Fetch(x, ...)\n+c.Get(x, ...)\n", "@@\nvar x expression\n@@\n-b.Load(x, ...)\n+c.Get(x, ...)\n",
+     "package p\n\nfunc f() {\n\ta.Fetch(ctx, 1, 2)\n\tb.Load(ctx, \"b\", 3)\n}\n"),
+    ("@@\n@@\n-old(...)\n+first(...)\n", "@@\n@@\n-older(...)\n+first(...)\n",
+     "package p\n\nfunc f() {\n\told(1, 2)\n\tolder(3)\n\tolder()\n}\n"),
+    ("@@\nvar e expression\n@@\n lock()\n ...\n-finish(e)\n+done(e)\n", "@@\nvar e expression\n@@\n lock()\n ...\n-complete(e)\n+done(e)\n",
+     "package p\n\nfunc f() {\n\tlock()\n\ta()\n\tfinish(1)\n}\n\nfunc g() {\n\tlock()\n\tb()\n\tc()\n\tcomplete(2)\n}\n"),
+    ("@@\n@@\n-func A(...) {\n+func A(ctx C, ...) {\n   ...\n }\n", "@@\n@@\n-func B(...) {\n+func B(ctx C, ...) {\n   ...\n }\n",
+     "package p\n\nfunc A(x int) {\n\tuse(x)\n}\n\nfunc B(y, z string) {\n\tuse(y)\n\tuse(z)\n}\n"),
+]
+
 @prop("C13")
 def c13(ctx):
     ctx.rule = ("for generated (patch, file) pairs the patch is re-laid-out by one of: '#' lines inserted in the metavariable section and the "
@@ -3112,6 +3270,17 @@ def c13(ctx):
             if f"o{i}" in {b["id"] for b in batch[-400:]} or True:
                 batch.append({"id": f"o{i}p{tag}", "patches": [text], "src": c["src"]})
                 meta_info[f"o{i}p{tag}"] = (f"o{i}", [tag])
+    # two changes whose '+' (or '-') sides are the same text, elision included: in one patch file or in two, the same result
+    for ti, (c1, c2, ssrc) in enumerate(SAME_SIDE_TABLE):
+        batch.append({"id": f"ss{ti}", "patches": [c1, c2], "src": ssrc})
+        batch.append({"id": f"ss{ti}v", "patches": [c1 + "\n" + c2], "src": ssrc})
+        meta_info[f"ss{ti}v"] = (f"ss{ti}", ["two-changes-with-the-same-side-in-one-file"])
+        batch.append({"id": f"ss{ti}w", "patches": [c1 + "\n\n# next\n" + c2 + "\n"], "src": ssrc})
+        meta_info[f"ss{ti}w"] = (f"ss{ti}", ["two-changes-with-the-same-side-in-one-file+comment-lines"])
+        # the same number of blank lines after each of them (they belong to the text of the sides)
+        for nb in (1, 2):
+            batch.append({"id": f"ss{ti}b{nb}", "patches": [c1 + "\n" * nb + c2 + "\n" * nb], "src": ssrc})
+            meta_info[f"ss{ti}b{nb}"] = (f"ss{ti}", [f"two-changes-with-the-same-side-in-one-file+{nb}-blank-lines-after-each"])
     # directed table: pattern lines that carry quote characters of another literal kind, comment markers inside
     # literals, the '#' of the patch language inside literals; a '#' line inserted after every line in turn
     for qi, (qp, qs) in enumerate(QUOTE_TABLE):
@@ -3700,6 +3869,43 @@ def c10(ctx):
                           replay_payload(inp, impl, model))
     engine_projection(ctx, res2, {"decisions", "where"})
     cli_projection(ctx, res2, {"decisions", "where"}, 40 if ctx.tier == "quick" else len(res2))
+    # a guard is decided for each file by that file's own package clause: files of several packages in one directory
+    # (a "//go:build ignore" generator of package main next to the library and its external test package), every change guarded
+    pfiles = {"d/a_gen.go": "//go:build ignore\n\npackage main\n\nfunc main() { oldName(1) }\n", "d/lib.go": "package lib\n\nfunc f() { oldName(2) }\n",
+              "d/lib_test.go": "package lib_test\n\nfunc g() { oldName(3) }\n", "d/z_more.go": "package lib\n\nfunc h() { oldName(4) }\n",
+              "e/only.go": "package main\n\nfunc k() { oldName(5) }\n", "e/zlib.go": "package lib\n\nfunc m() { oldName(6) }\n"}
+    pkg_of = {rel: re.search(r"^package (\w+)", src, re.M).group(1) for rel, src in pfiles.items()}
+    for guards in (["lib"], ["main"], ["lib_test"], ["nowhere"], ["lib", "lib_test"], ["main", "nowhere"]):
+        for mode in ([], ["--print-only"], ["--diff"]):
+            for targs in (["."], ["./..."], ["d", "e"], sorted(pfiles), sorted(pfiles, reverse=True)):
+                root = ctx.scratch("c10pkg")
+                tree = dict(pfiles)
+                pargs = []
+                for gi, g_ in enumerate(guards):
+                    tree[f"g{gi}.patch"] = f"@@\nvar x expression\n@@\n package {g_}\n\n-oldName(x)\n+newName{gi}(x)\n"
+                    pargs += ["-p", f"g{gi}.patch"]
+                cl.write_tree(root, tree)
+                code, out, err = cl.gopatch(ctx.gopatch, root, pargs + mode + targs)
+                so = out.decode("utf-8", "replace")
+                ctx.evaluations += 1
+                ctx.count("per_file_package_guards")
+                ctx.nontrivial.add("pkgguard:" + ",".join(guards) + "|" + " ".join(mode) + "|" + " ".join(targs))
+                probs = []
+                for rel, src in pfiles.items():
+                    want = pkg_of[rel] in guards
+                    if not mode:
+                        got = open(os.path.join(root, rel)).read() != src
+                    elif mode == ["--diff"]:
+                        got = ("--- " + rel + "\n") in so
+                    else:
+                        n_ = re.search(r"oldName\((\d)\)", src).group(1)
+                        got = bool(re.search(r"newName\d\(" + n_ + r"\)", so))
+                    if got != want:
+                        probs.append(f"{rel} (package {pkg_of[rel]}) was {'rewritten' if got else 'left alone'}")
+                shutil.rmtree(root, ignore_errors=True)
+                if probs or code != 0:
+                    ctx.violation(f"changes guarded by package {' / '.join(guards)}: " + "; ".join(probs[:4]) + f" (exit {code})",
+                                  {"input": {"files": pfiles, "guards": guards, "flags": mode, "arguments": targs}, "stderr": err.decode("utf-8", "replace")[-500:]})
     # duplicate import paths: the known divergence (F8) and the generated stream
     dup = {"id": "f8", "patches": ["@@\nvar x expression\n@@\n import bar \"example.com/pkg\"\n\n-foo(x)\n+bar.Foo(x)\n"],
            "src": "package a\n\nimport (\n\t\"example.com/pkg\"\n\tbar \"example.com/pkg\"\n)\n\nfunc f() { foo(1); pkg.X(); bar.Y() }\n"}
@@ -4015,6 +4221,17 @@ def c09(ctx):
                  "@@\n@@\n-outer:\n+rows:\n for ... {\n   ...\n }\n", "@@\n@@\n-continue outer\n+continue rows\n"]
     for how_ in ("flags", "one-file", "list"):
         todo.append(({"id": "label/" + how_, "chain": lab_chain, "src": lab_src}, how_))
+    # an earlier change writes what an elision stood for twice; a later change rewrites an element of it: both copies, as
+    # in a run on the printed file
+    twice = [(["@@\n@@\n-foo(...)\n+both(one(...), two(...))\n", "@@\nvar v expression\n@@\n-v.Get()\n+v.Load()\n"],
+              "package a\n\nfunc f() {\n\tfoo(x.Get(), 2)\n}\n"),
+             (["@@\n@@\n-foo(...)\n+bar(...)\n+baz(...)\n", "@@\nvar v expression\n@@\n-v.Get()\n+v.Load()\n"],
+              "package a\n\nfunc f() {\n\tfoo(x.Get(), y.Get())\n}\n"),
+             (["@@\nvar e expression\n@@\n-dup(e)\n+pair(e, e)\n", "@@\n@@\n-old()\n+renewed()\n"],
+              "package a\n\nfunc f() {\n\tdup(old())\n\tdup(wrap(old(), 1))\n}\n")]
+    for ti, (tchain, tsrc) in enumerate(twice):
+        for how_ in ("flags", "one-file", "list"):
+            todo.append(({"id": f"twice{ti}/{how_}", "chain": tchain, "src": tsrc}, how_))
     # a chain with a failing step
     todo.append(({"id": "failstep", "chain": ["@@\nvar x expression\n@@\n-foo(x)\n+bar(x)\n", "@@\nvar x expression\n@@\n-bar(x)\n+baz.x\n"],
                   "src": "package a\n\nfunc f() {\n\tfoo(g(1))\n}\n"}, "flags"))
